@@ -7,6 +7,7 @@ import shutil
 import json
 import glob
 import copy
+import time
 from collections import Counter
 from concurrent.futures import ThreadPoolExecutor
 
@@ -59,6 +60,14 @@ class Ctx:
         self.ray_fallbacks = 0
         self.traces_off = False
         self.cpu0 = os.times()
+        self.t0 = time.time()
+        self.phases = {}
+        self.bg = ThreadPoolExecutor(max_workers=1)   # the TLC part of the binding self-test
+        self.selftest = None
+
+    def mark(self, name):
+        """wall-clock seconds since the start of the check at which a phase ended"""
+        self.phases[name] = round(time.time() - self.t0, 1)
 
     def wd(self, name):
         return workdir(f"rg_{self.tag}_{name}")
@@ -231,12 +240,21 @@ class Batch:
         g[2].append(info)
         return True
 
+    CHUNK = 8    # traces per TLC run (several runs side by side)
+
     def validate(self, name):
         ctx = self.ctx
+        if ctx.selftest is not None:     # the verdict of the binding self-test comes first
+            st, ctx.selftest = ctx.selftest, None
+            st()
         jobs = []
         for (gk, nstep), (geo, traces, infos) in self.groups.items():
             nm = f"{name}_{'_'.join(str(x) for x in gk)}_{nstep}"
-            jobs.append((nm, geo, nstep, traces, infos, gk))
+            nchunk = max(1, -(-len(traces) // self.CHUNK)) if POOL > 1 else 1
+            size = -(-len(traces) // nchunk)
+            for c in range(nchunk):
+                jobs.append((nm if nchunk == 1 else f"{nm}_{c}", geo, nstep, traces[c * size:(c + 1) * size], infos[c * size:(c + 1) * size], gk))
+        jobs.sort(key=lambda j: -sum(len(t) for t in j[3]))     # longest first
 
         def work(job):
             nm, geo, nstep, traces, infos, gk = job
@@ -320,8 +338,8 @@ def swap_representative(trace, geo):
 
 def selftest_binding(ctx, geo):
     """the binding must be able to reject (corrupt one logged coefficient, duplicate one evaluation) and the property
-    level must not reject what the properties leave free (a dropped loop event, another orbit representative)"""
-    rep = ctx.rep
+    level must not reject what the properties leave free (a dropped loop event, another orbit representative).
+    The scenario is executed here; TLC validates the five traces in the background (ctx.selftest gives the verdict)."""
     ops = [dict(op="run", restart=False, mode=dict(par=False, dump=False, allow=True, sym=True), nit=1, refine=[], sched={})]
     ev, errs, w = RS.execute(ops, geo, os.path.join(ctx.wd("selftest"), "s"))
     ctx.note_world(w)
@@ -347,7 +365,13 @@ def selftest_binding(ctx, geo):
     bad3 = ev[:i1 + 1] + [copy.deepcopy(ev[i1])] + ev[i1 + 1:]
     swapped = swap_representative(ev, geo)
     traces = [ev, bad1, bad2, bad3] + ([swapped] if swapped is not None else [])
-    stats, v = RT.validate(traces, geo, 2, ctx.tname("selftest"))
+    fut = ctx.bg.submit(RT.validate, traces, geo, 2, ctx.tname("selftest"))
+    ctx.selftest = lambda: _selftest_verdict(ctx, geo, ops, ev, swapped, fut.result())
+
+
+def _selftest_verdict(ctx, geo, ops, ev, swapped, result):
+    rep = ctx.rep
+    stats, v = result
     # (on a tree whose internals differ from the model of the code the good trace itself is only accepted on the
     # property level: that is information, not a failure of the binding)
     if not v[0]["ok"]:
@@ -499,16 +523,22 @@ def _finish_parts(ctx):
                       "run_grid; the clause 'independent of the listing order' is then exercised by TLC only")
     if ctx.ray_fallbacks:
         rep.part("ray_double", scripted_answers_replaced_by_fifo=ctx.ray_fallbacks)
-    rep.part("cpu", cpu_seconds_including_tlc=ctx.cpu(), tlc_workers=WORKERS, pool=POOL)
+    rep.part("cpu", cpu_seconds_including_tlc=ctx.cpu(), tlc_workers=WORKERS, pool=POOL, phase_ended_at_wall_s=ctx.phases)
 
 
 def _check(ctx):
     ex = Exhaustive(ctx)
     try:
         _check_body(ctx, ex)
+        if ctx.selftest is not None:
+            st, ctx.selftest = ctx.selftest, None
+            st()
+        ctx.mark("foreground_done")
         ex.collect()
+        ctx.mark("exhaustive_collected")
     finally:
         ex.shutdown()
+        ctx.bg.shutdown(wait=True)
 
 
 def _check_body(ctx, ex):
@@ -548,6 +578,7 @@ def _check_body(ctx, ex):
             ex.submit("c10_1d_n6", mc_cfg(GEOS["1d_inv6"], niter=3, adptfac=1, withB=False, allowA=(True,), dump=(False, True)),
                       expect_actions=RUN_ACTIONS, timeout=12000)
         selftest_binding(ctx, g1)
+        ctx.mark("selftest")
         if ctx.traces_off:
             return
         plan = [("1d_inv", 1, 2, 6), ("1d_inv", 2, 2, 4), ("1d_inv3", 1, 2, 4), ("2d_c4", 1, 2, 4), ("1d_one", 1, 3, 4), ("2d_h3m", 2, 3, 4)]
@@ -560,6 +591,7 @@ def _check_body(ctx, ex):
                          invs=["IntegralConsistent", "WeightOne"], props=(), allorders=False)
             sims.append((f"c10_{gname}_{fac}", geo, cfg, num * mult, 60 * (niter + 1)))
         scripts = simulate_all(ctx, sims)
+        ctx.mark("simulate")
         for gname, fac, niter, num in plan:
             geo = GEOS[gname]
             run_scripts(ctx, batch, geo, scripts[f"c10_{gname}_{fac}"], f"c10_{gname}_{fac}", adpt_fac=fac)
@@ -569,8 +601,11 @@ def _check_body(ctx, ex):
             for geo in (g1, GEOS["2d_c4"]):
                 ops = [dict(op="run", restart=False, mode=dict(par=par, dump=False, allow=False, sym=True), nit=0, refine=[], sched={})]
                 run_scripts(ctx, batch, geo, [ops], f"c10_discard_{geo.D}_{int(par)}", origin="fixed")
+        ctx.mark("scenarios_on_real_code")
         batch.validate("c10")
+        ctx.mark("trace_validation")
         large_worlds(ctx, rng)
+        ctx.mark("large_worlds")
         require_classes(ctx, ["tlc-behaviour", "random", "dump", "parallel", "symmetry", "memory_only", "discarded", "restart"])
 
     elif pid == "C11":
@@ -606,7 +641,9 @@ def _check_body(ctx, ex):
             key = f"c11_{gname}_{fac}_{maxleg}"
             run_scripts(ctx, batch, geo, scripts[key], key, adpt_fac=fac)
             run_random(ctx, batch, geo, rng, (num // 2) * mult, niter, key, adpt_fac=fac, allow_par=False)
+        ctx.mark("scenarios_on_real_code")
         batch.validate("c11")
+        ctx.mark("trace_validation")
         require_classes(ctx, ["tlc-behaviour", "random", "restart", "two_restarts", "listing_permuted", "restart_back_or_explicit", "dump"])
 
     elif pid == "C12":
@@ -648,7 +685,10 @@ def _check_body(ctx, ex):
                     w.geo.release()
                     rep.case((geo.key(), "randsched", j, i, seed()))
                 shutil.rmtree(wd, ignore_errors=True)
+            ctx.mark("scenarios_on_real_code")
             batch.validate("c12")
+            ctx.mark("trace_validation")
             require_classes(ctx, ["tlc-behaviour", "random-schedule", "parallel", "dump"])
         from . import rungrid_par_tab
         rungrid_par_tab.check(rep, rng, thorough, tag=ctx.tag)
+        ctx.mark("numeric_only")
